@@ -1,5 +1,5 @@
 SPECIFICATION GenSpec
-CONSTANTS MaxOps = 6 TouchMem = 1
+CONSTANTS MaxOps = 6 RawOps = 6 TouchMem = 1
   Shapes <- RawShapesQ
   Datas <- DatasRawQ
   Ks <- KsQ
